@@ -1531,6 +1531,12 @@ class Engine:
     # ------------------------------------------------------------------ calls
     def e_Call(self, node, st):
         f = node.func
+        if (isinstance(f, ast.Attribute) and f.attr == "extend" and len(node.args) == 1 and not node.keywords
+                and isinstance(node.args[0], ast.GeneratorExp)):
+            recv = self.eval(f.value, st)
+            if recv.k == "pbrep" and self.schema.pb.is_msg(self.schema.pb.fdef(recv.x[1], recv.x[2])["type"]):
+                # repeated message field filled by  (callee(e) for e in S)  with an allocating callee under contract
+                return self.schema.pb.extend_map(self, recv, node.args[0], st)
         # evaluate arguments
         fv = self.eval(f, st)
         args = []
